@@ -6,7 +6,7 @@ agreement of statement and serializer, non-re-entrant stages launched once.  Not
 (IndexError/KeyError on data, anything inside rdflib)."""
 import ast
 from ..report import Ob, Floor
-from ..rules import sig, null, raises, enums, layout, choice, domain, direction, kinds
+from ..rules import sig, null, raises, enums, layout, choice, domain, direction, kinds, plumb
 from .. import exceptions
 
 S = "shexer.shaper:Shaper."
@@ -48,6 +48,11 @@ def check(ctx, tier):
     obs = o_calls + o_self + o_exc + o_attr + o_abs + o_null + o_enum + o_ret + o_raise + o_lay + o_choice + o_dom + o_dir + o_memo
     o_kind, n_kind = ctx.attempt(kinds.object_iri_reads, ctx, "D-g", default=([], 0))
     obs += o_kind
+    # an option that stops reaching a stage makes the stage run paths the configuration excludes (e.g. the shexer-side removal of
+    # empty shapes, whose .st_type read is a known finding, becomes reachable with remove_empty_shapes left at its default)
+    obs += ctx.attempt(lambda c, cl: plumb.forwarding(c, cl, "remove_empty_shapes", lambda prm: prm == "remove_empty_shapes",
+                                                      [c.flow.param("shexer.shaper:Shaper.__init__", "remove_empty_shapes")],
+                                                      skip_funcs={"shexer.shaper:Shaper.__init__"})[0], ctx, "D-h", default=[])
     exceptions.apply(obs)
     floors = [Floor("R-SIG call sites bound against a signature", len(o_calls), 850),
               Floor("R-SIG methods with self-attribute reads", len(o_self), 500),
